@@ -40,6 +40,7 @@ ALPHA = {
     'tuple': ((1, 2), (1, 3), (2, 1), 'x'),
     'obj': ('a', 1, None, (1, 2), 2.5),
     'date': (D('2020-01-01'), D('2020-01-02'), D('2019-12-31'), D('2021-01-01')),
+    'bigmix': (2 ** 53 + 1, 2 ** 53, -(2 ** 53) - 1, -(2 ** 53), 0.5),   # integers that collapse onto one float64 if the labels are ever held as floats
     'month': (D('2020-01'), D('2020-03'), D('2019-12'), D('2021-01')),
     'year': (D('2020'), D('2022'), D('2019'), D('2021')),
 }
@@ -401,6 +402,7 @@ GO_KINDS = {
     'IndexGO-auto-empty': (lambda: sf.IndexAutoFactory.from_optional_constructor(0, default_constructor=sf.IndexGO), [], [0, 1, 'x', 0]),
     'IndexDateGO': (lambda: sf.IndexDateGO(('2020-01-01',)), [D('2020-01-01')], [D('2020-01-02'), D('2020-01-01'), D('2019-01-01')]),
     'IndexHierarchyGO': (lambda: sf.IndexHierarchyGO.from_labels([('a', 1), ('a', 2)]), [('a', 1), ('a', 2)], [('a', 3), ('b', 1), ('a', 1), ('b', 2), ('c', 1)]),
+    'IndexHierarchyGO-depth3': (lambda: sf.IndexHierarchyGO.from_labels([('A', 'a', 1)]), [('A', 'a', 1)], [('A', 'a', 2), ('A', 'b', 1), ('A', 'a', 1), ('B', 'a', 1), ('A', 'b', 2)]),
     'FrameGO-columns': (lambda: sf.FrameGO(np.zeros((1, 2)), columns=('a', 'b')), ['a', 'b'], ['c', 'a', 'd']),
 }
 READS = ['values', 'len', 'positions', 'iter', 'loc_to_iloc(last)', 'contains(all)', 'copy', 'reversed']
@@ -418,7 +420,7 @@ def go_events(kind):
 def apply_event(ctx, kind, subject, model, ev, info, derived):
     '''apply one event to the real subject and the model; read events compare on the spot. Returns False on violation.'''
     ix = subject.columns if kind == 'FrameGO-columns' else subject
-    hier = kind == 'IndexHierarchyGO'
+    hier = kind.startswith('IndexHierarchyGO')
     op, arg = ev
     if op == 'append':
         dup = any(pyset_key(arg) == pyset_key(l) for l in model)
@@ -524,7 +526,7 @@ def run_history(case, ctx):
     _, kind, first, depth = case
     mk, init, pool = GO_KINDS[kind]
     events = go_events(kind)
-    absent_extra = ['__absent__', 99] if kind != 'IndexHierarchyGO' else [('z', 9)]
+    absent_extra = ['__absent__', 99] if not kind.startswith('IndexHierarchyGO') else ([('z', 9)] if kind == 'IndexHierarchyGO' else [('z', 'z', 9)])
     if kind == 'IndexDateGO':
         absent_extra = [D('1999-01-01')]
 
